@@ -214,34 +214,49 @@ def dVerdict (tbl : ClassTable) (T : BoolTable) (v : Ty) (o : Obj) : List String
 
 /-! ### Boolean combinations -/
 
+/-- the part of the run-time state a condition can depend on besides the narrowed variable: the
+object bound to the other variable and the truth of every opaque operand -/
+structure Env where
+  other : Obj := .none
+  bits : List Bool := []
+  deriving Inhabited
+
 mutual
-def holdsB (tbl : ClassTable) : BCond → Obj → Bool
+/-- truth of a boolean combination for the object `o` of the narrowed variable in environment `ρ` -/
+def holdsB (tbl : ClassTable) (ρ : Env) : BCond → Obj → Bool
   | .leaf c, o => holds tbl c o
-  | .not b, o => !holdsB tbl b o
-  | .and bs, o => holdsAll tbl bs o
-  | .or bs, o => holdsAny tbl bs o
-def holdsAll (tbl : ClassTable) : List BCond → Obj → Bool
+  | .other c, _ => holds tbl c ρ.other
+  | .opaque i, _ => ρ.bits.getD i false
+  | .not b, o => !holdsB tbl ρ b o
+  | .and bs, o => holdsAll tbl ρ bs o
+  | .or bs, o => holdsAny tbl ρ bs o
+def holdsAll (tbl : ClassTable) (ρ : Env) : List BCond → Obj → Bool
   | [], _ => true
-  | b :: bs, o => holdsB tbl b o && holdsAll tbl bs o
-def holdsAny (tbl : ClassTable) : List BCond → Obj → Bool
+  | b :: bs, o => holdsB tbl ρ b o && holdsAll tbl ρ bs o
+def holdsAny (tbl : ClassTable) (ρ : Env) : List BCond → Obj → Bool
   | [], _ => false
-  | b :: bs, o => holdsB tbl b o || holdsAny tbl bs o
+  | b :: bs, o => holdsB tbl ρ b o || holdsAny tbl ρ bs o
 end
 
 mutual
-def condOkB (tbl : ClassTable) : BCond → Obj → Bool
+def condOkB (tbl : ClassTable) (ρ : Env) : BCond → Obj → Bool
   | .leaf c, o => condOk tbl c o
-  | .not b, o => condOkB tbl b o
-  | .and bs, o => condOkL tbl bs o
-  | .or bs, o => condOkL tbl bs o
-def condOkL (tbl : ClassTable) : List BCond → Obj → Bool
+  | .other c, _ => condOk tbl c ρ.other
+  | .opaque _, _ => true
+  | .not b, o => condOkB tbl ρ b o
+  | .and bs, o => condOkL tbl ρ bs o
+  | .or bs, o => condOkL tbl ρ bs o
+def condOkL (tbl : ClassTable) (ρ : Env) : List BCond → Obj → Bool
   | [], _ => true
-  | b :: bs, o => condOkB tbl b o && condOkL tbl bs o
+  | b :: bs, o => condOkB tbl ρ b o && condOkL tbl ρ bs o
 end
 
 mutual
+/-- the atoms on the narrowed variable -/
 def BCond.leaves : BCond → List Cond
   | .leaf c => [c]
+  | .other _ => []
+  | .opaque _ => []
   | .not b => b.leaves
   | .and bs => BCond.leavesL bs
   | .or bs => BCond.leavesL bs
@@ -250,13 +265,25 @@ def BCond.leavesL : List BCond → List Cond
   | b :: bs => b.leaves ++ BCond.leavesL bs
 end
 
+/-- Exception class `nullAbsorbLeak` of boolean combinations: the constraint the checker extracts from
+the *value* of the condition (`BCond.ac`) narrows differently from the ideal algebra
+(`BCond.acIdeal`) in one of the two branches. Root cause: `AndConstraint.make` reduces
+`NULL AND (NULL OR A)` to `NULL` ("A AND (A OR B) reduces to A" with the singleton `NULL_CONSTRAINT`
+for two opaque operands), the value of the `and` expression is then not annotated, and
+`extract_constraints` reads the constraint `A` back from the member values as `OR(NULL, A)` — whose
+inverse `AND(NULL, ¬A)` asserts `¬A` although `not (p and (p or A))` says nothing about `A`. -/
+def nullAbsorbLeak (tbl : ClassTable) (T : BoolTable) (v : Ty) (b : BCond) : List String :=
+  if Ty.beq (narrowB tbl T v b true) (narrowBIdeal tbl T v b true) &&
+     Ty.beq (narrowB tbl T v b false) (narrowBIdeal tbl T v b false) then [] else ["nullAbsorbLeak"]
+
 /-- Classification of a failing boolean combination (used by the driver only): the classes of every
 leaf in either polarity, on the members of `v` and of every narrowing of `v` by a single leaf (the
 intermediate values a conjunction passes through). -/
 def d02B (tbl : ClassTable) (T : BoolTable) (v : Ty) (b : BCond) (o : Obj) : List String :=
   let ls := b.leaves
   let vs := v :: ls.flatMap fun c => [narrow tbl T v c true, narrow tbl T v c false]
-  (vs.flatMap fun w => ls.flatMap fun c => d02 tbl T w c true o ++ d02 tbl T w c false o).eraseDups
+  (nullAbsorbLeak tbl T v b ++
+    (vs.flatMap fun w => ls.flatMap fun c => d02 tbl T w c true o ++ d02 tbl T w c false o)).eraseDups
 
 /-! ### side conditions on values, literals and objects; the table laws (all decidable) -/
 
@@ -425,6 +452,7 @@ def singlePats : List Pat → Bool
 mutual
 def AC.noProvider : AC → Bool
   | .provider => false
+  | .otherK => true
   | .and cs => AC.noProviderL cs
   | .or cs => AC.noProviderL cs
   | .equiv cs => AC.noProviderL cs
